@@ -367,10 +367,13 @@ func (g *TemplateGenerator) getTemplate(ctx context.Context) (string, *gojsonsch
 		if !strings.HasPrefix(g.templateName, protocol) {
 			continue
 		}
+		// The same template can be used with different schemas (template-schema
+		// is configurable per output file), so the schema URL is part of the key.
+		cacheKey := g.templateName + "\x00" + g.templateSchema
 		var remoteTemplate *RemoteTemplate
-		if cachedRemoteTemplate, ok := g.remoteTemplateCache[g.templateName]; !ok {
+		if cachedRemoteTemplate, ok := g.remoteTemplateCache[cacheKey]; !ok {
 			remoteTemplate = NewRemoteTemplate(g.templateName, g.templateSchema)
-			g.remoteTemplateCache[g.templateName] = remoteTemplate
+			g.remoteTemplateCache[cacheKey] = remoteTemplate
 		} else {
 			remoteTemplate = cachedRemoteTemplate
 		}
